@@ -64,7 +64,7 @@ var (
 	qeSGroups   = []string{"critical", "Web", "web", "infra.core", "none"}
 	qeContacts  = []string{"alice", "bob", "Carol", "dave", "omd"}
 	qeCVNames   = []string{"FOO", "BAR", "LOC", "TAG"}
-	qeCVValues  = []string{"1", "x", "Berlin", "berlin", "a b", "", "42"}
+	qeCVValues  = []string{"1", "1", "x", "Berlin", "berlin", "a b", "", "42"}
 	qeTexts     = []string{"OK", "ok - all fine", "CRITICAL: disk full", "WARN 80%", "", "a.b", "Ünïcode", "x|y=1", "line (1) [x]"}
 	qeFlagSets  = [][]string{{}, {"Naemon"}, {"Naemon", "HasLastUpdateColumn"}, {"Icinga2"}, {"Shinken"}}
 )
@@ -117,6 +117,20 @@ func qeGenBackend(r *vRand, idx int, maxHosts int) *qeBackend {
 	hostNames := qeSubset(r, qeHostNames, nHosts+2)
 	if len(hostNames) > maxHosts {
 		hostNames = hostNames[:maxHosts]
+	}
+	if len(hostNames) >= 2 && r.chance(1, 3) {
+		// a name which is a prefix of another one, followed by a character below ';' (joined keys order differently)
+		pair := vPick(r, [][]string{{"web", "web-2"}, {"x", "x.1"}, {"web", "web01"}, {"h", "h-1"}})
+		rest := []string{}
+		for _, n := range hostNames {
+			if n != pair[0] && n != pair[1] {
+				rest = append(rest, n)
+			}
+		}
+		if len(rest) > len(hostNames)-2 {
+			rest = rest[:len(hostNames)-2]
+		}
+		hostNames = append(rest, pair...)
 	}
 	sort.Strings(hostNames)
 
